@@ -97,7 +97,7 @@ def run(ctx):
                 ctx.notes.append("exhaustive stream cut by the time budget")
                 break
             ctx.stat("stream=exhaustive")
-            style = rng.choice(("plain", "inline", "spread"))
+            style = rng.choice(("plain", "inline", "spread", "reselect-inline", "reselect-spread", "reselect-nested"))
             if style != "plain":
                 case = dict(case, style=style)
             if rng.random() < 0.4:
